@@ -1,11 +1,11 @@
-SPECIFICATION TraceSpec
+SPECIFICATION Spec
 CONSTANTS
-  N = 6
+  N = 3
   Refs = {"a", "b"}
-  MaxDepth = 0
-  MaxPacks = 6
+  MaxDepth = 6
+  MaxPacks = 2
   WithCopies = TRUE
-  WithIdx = TRUE
+  WithIdx = FALSE
   MidxChecksPack = TRUE
   CgChecksStore = TRUE
   CgWriterCloses = TRUE
@@ -14,9 +14,12 @@ CONSTANTS
   BitmapExcludeExact = TRUE
   ProvidersAgree = TRUE
   DeleteDropsPacked = TRUE
-  BitmapHonoursShallow = TRUE
+  BitmapHonoursShallow = FALSE
   CgOctopusOk = TRUE
-  MaxParents = 6
+  MaxParents = 2
   CgHonoursShallow = TRUE
-  Focus = "all"
+  Focus = "bmp"
+INVARIANT TypeOK
+INVARIANT Transparent
+VIEW view
 CHECK_DEADLOCK FALSE
